@@ -103,6 +103,6 @@ def main():
     json.dump(man, open(os.path.join(ROOT, "MANIFEST.json"), "w"), indent=1)
     print("MANIFEST.json: %d checks, %d not_applicable" % (len(checks), len(na)))
 
-HOOK_COMMITS = ["e6c86a8b57c7005d8c141e75e32782113ecf75c8", "1974e3617244a498260bbb48cbdb96830ebff0f2", "7a7691f2e3d038ea45b0b886ae895fa0375ca538", "a0f99a856aec567ae477ec329b9dfcbed09bb74b"]
+HOOK_COMMITS = ["e6c86a8b57c7005d8c141e75e32782113ecf75c8", "1974e3617244a498260bbb48cbdb96830ebff0f2", "7a7691f2e3d038ea45b0b886ae895fa0375ca538", "a0f99a856aec567ae477ec329b9dfcbed09bb74b", "54bdbb2d097f8bda75b30b2bfc0927d3bc608444", "04a1447f86a8a6d185872e359a909cad54a26bf0"]
 if __name__ == "__main__":
     main()
